@@ -36,6 +36,41 @@ impl Prop for Repro {
     }
     fn generate(&self, c: &mut Choices) -> BuildCase {
         let gc = if c.chance(1, 3) { Some(c.pick_str(&["copy", "sweep", "zero", "swiper"]).to_string()) } else { None };
+        if c.chance(1, 3) {
+            // order-sensitive lowering: matches over integer-like scrutinees with guarded arms on several distinct
+            // values, guarded wildcards before literal arms, alternatives, simple enums, strings
+            let mut src = String::from("enum Colour { Red, Green, Blue, Cyan, Magenta, Yellow, Black, White }\n");
+            let nf = 2 + c.below(5);
+            let mut calls = String::new();
+            for f in 0..nf {
+                let kind = c.below(5);
+                let (ty, lits): (&str, Vec<String>) = match kind {
+                    0 => ("Int32", (0..12).map(|i| format!("{}i32", i * 3 - 5)).collect()),
+                    1 => ("Int64", (0..12).map(|i| format!("{}", i * 1_000_003 - 7)).collect()),
+                    2 => ("UInt8", (0..12).map(|i| format!("{}u8", i * 20)).collect()),
+                    3 => ("Colour", ["Red", "Green", "Blue", "Cyan", "Magenta", "Yellow", "Black", "White"].iter().map(|v| format!("Colour::{v}")).collect()),
+                    _ => ("Char", (0..12).map(|i| format!("'{}'", (b'a' + i as u8) as char)).collect()),
+                };
+                let res = |k: usize| format!("{}i32", f * 100 + k);
+                src.push_str(&format!("fn m{f}(x: {ty}, a: Bool, b: Bool): Int32 {{\n    match x {{\n"));
+                let narms = 2 + c.below(9);
+                for k in 0..narms {
+                    let lit = &lits[c.below(lits.len())];
+                    match c.weighted(&[5, 3, 2, 1]) {
+                        0 => src.push_str(&format!("        {lit} if {} => {},\n", c.pick_str(&["a", "b", "a && b", "a || b"]), res(k))),
+                        1 => src.push_str(&format!("        {lit} => {},\n", res(k))),
+                        2 => src.push_str(&format!("        {lit} | {} => {},\n", lits[c.below(lits.len())], res(k))),
+                        _ => src.push_str(&format!("        _ if {} => {},\n", c.pick_str(&["a", "b"]), res(k))),
+                    }
+                }
+                src.push_str(&format!("        _ => {},\n    }}\n}}\n", res(99)));
+                for l in lits.iter().take(4) {
+                    calls.push_str(&format!("    println(\"${{m{f}({l}, true, false)}} ${{m{f}({l}, false, true)}}\");\n"));
+                }
+            }
+            src.push_str(&format!("fn main() {{\n{calls}}}\n"));
+            return BuildCase { label: "generated-guarded-match".into(), source: src, gc, builds: 4 };
+        }
         if c.chance(1, 2) {
             let p = crate::progen::pgen::generate(c, crate::progen::pgen::Profile::Core);
             BuildCase { label: "generated".into(), source: crate::progen::ir::print_program(&p), gc, builds: 3 }
@@ -147,7 +182,7 @@ impl Prop for Repro {
                 }
             }
         }
-        Outcome::pass(h, meta.0 >= 5 || meta.1 >= 1)
+        Outcome::pass(h, meta.0 >= 5 || meta.1 >= 1 || case.label == "generated-guarded-match")
             .class(format!("family:{}", case.label.split(':').next().unwrap_or("")))
             .class_if(meta.0 >= 5, ">=5-monomorphised-instantiations")
             .class_if(meta.1 >= 1, "has-trait-object-thunk")
@@ -175,7 +210,7 @@ pub fn main(mode: Mode) -> i32 {
         }
         Mode::Run(tier) => {
             let mut ctx = Ctx::new("C15", &tier);
-            ctx.rule = "cases: programs of the repository's runnable corpus and of the typed generator; each is built 3 times concurrently (and 16 such groups run in parallel), every build in a fresh process from its own working directory into its own output directory with a different set of neighbour files, as package (-c), assembly (-S, both code generators) and linked executable (both code generators), default or explicit collector; plus the bootstrap chain stage1 (baseline-built) -> stage2 -> stage3 of the optimizing compiler, in the release and in the debug tool build. oracle: byte identity of every artefact kind within a group; stage2 == stage3. non-trivial = program whose assembly contains >= 5 monomorphised instantiations or >= 1 trait-object thunk (ordering-sensitive tables); distinct by (source, collector) hash".into();
+            ctx.rule = "cases: programs of the repository's runnable corpus, of the typed generator, and generated programs full of order-sensitive lowering (matches over Int32/Int64/UInt8/Char/simple-enum scrutinees with guarded arms on several distinct values, guarded wildcards before literal arms, alternatives); each is built 3-4 times concurrently (and 16 such groups run in parallel), every build in a fresh process from its own working directory into its own output directory with a different set of neighbour files, as package (-c), assembly (-S, both code generators) and linked executable (both code generators), default or explicit collector; plus the bootstrap chain stage1 (baseline-built) -> stage2 -> stage3 of the optimizing compiler, in the release and in the debug tool build. oracle: byte identity of every artefact kind within a group; stage2 == stage3. non-trivial = program whose assembly contains >= 5 monomorphised instantiations or >= 1 trait-object thunk (ordering-sensitive tables), or a guarded-match program; distinct by (source, collector) hash".into();
             ctx.assumptions = vec!["same host, same toolchain; the source file keeps its path across the builds of a group".into()];
             // bootstrap fixed point, produced by ./check when it (re)bootstraps from the current tree
             for (name, tools) in [("release", Tools::release()), ("debug", Tools::debug())] {
